@@ -285,6 +285,11 @@ func replayCase(sub string, raw json.RawMessage) string {
 		if m := un(&c); m != "" {
 			return m
 		}
+		leave, err := enterModuleDir()
+		if err != nil {
+			return "cannot prepare the module directory: " + err.Error()
+		}
+		defer leave()
 		return checkDeny(c).msg
 	case "vars", "vars-readback", "vars-prog":
 		var c varsCase
@@ -323,6 +328,11 @@ func replayCase(sub string, raw json.RawMessage) string {
 func TestC19(t *testing.T) {
 	rec = evid.Open("C19")
 	defer rec.Close()
+	// this process must not block on an inherited stdin should the code under
+	// test read it: it sees end of file, the children get real data
+	if f, err := os.Open(os.DevNull); err == nil {
+		os.Stdin = f
+	}
 	var err error
 	if model, err = refjq.New(); err != nil {
 		t.Fatal(err)
